@@ -6,6 +6,7 @@ import AaVerif.Generated.Dists
 import AaVerif.Generated.AaTables
 import AaVerif.Aa.Wire
 import AaVerif.Logs
+import AaVerif.Layout
 import AaVerif.Generated.LogRx
 open Proto
 
@@ -170,11 +171,31 @@ where suiteRx' (name : String) : String :=
   | "cleanlogs" | "resolvelogs" | "filter" | "decodehex" => "ok\t"
   | _ => "err"
 
+/-- layout <kind> <file base name or relative abstraction path> <text> -> ok <failing parts> -/
+def suiteLayout (f : List String) : String :=
+  match f with
+  | [kind, name, text] =>
+    let ls := Lines.splitNl (unesc text)
+    if kind == "profile" then
+      let n := Layout.stripSuffix (unesc name)
+      "ok\t" ++ String.intercalate "," (Layout.report n ls) ++ "\t" ++ b2s (Layout.ok n ls) ++ "\t" ++
+        b2s (ls.any (fun l => Layout.startsWithWord (Layout.headerPrefix n) l && Flags.endsBrace l))
+    else "ok\t" ++ (if Layout.absOk (unesc name) ls then "" else "abstraction-include") ++ "\t" ++ b2s (Layout.absOk (unesc name) ls) ++ "\t1"
+  | _ => "err\tbad-op"
+
+/-- uniq <names;...> -> ok <duplicated names> -/
+def suiteUniq (f : List String) : String :=
+  let names := match f with | [l] => unescList l | _ => []
+  let dups := names.filter (fun n => names.count n > 1)
+  "ok\t" ++ escList dups.eraseDups ++ "\t" ++ b2s (decide names.Nodup)
+
 def main (args : List String) : IO Unit := do
   match args with
   | ["builder"] => serve suiteBuilder
   | ["setflags"] => serve suiteSetflags
   | ["filter"] => serve suiteFilter
+  | ["layout"] => serve suiteLayout
+  | ["uniq"] => serve suiteUniq
   | ["getlogs"] => serve suiteGetLogs
   | ["lognew"] => serve suiteLogNew
   | ["rx"] => serve suiteRx
